@@ -9,6 +9,10 @@
 //!   large <seed> <count> <maxlen>
 //!   one <fn> <n> <d> <s|c>                replay of one copy/set call on the small arena
 //!   onecmp <fn> <n> <am> <bm> <p> <pair>  replay of one compare call
+//!   mid <n,n,...>                         copy calls with lengths up to 130 on a 640-byte arena (run-level judgement)
+//!   guard <n,n,...>                       the SOURCE of copies / the operands of compares END right in front of an
+//!                                         unreadable page or START right behind one (mmap + mprotect): a load outside
+//!                                         [src, src+n) faults - the crash is the datum (read_outside)
 //!   steps \n <fn> <n> <d> <s|c> \n ...    copy/set calls on the small arena, each bracketed by the marker
 //!                                         system calls write(-1,"B") / write(-1,"E") so that tools/stepstores can
 //!                                         single-step exactly the call and log every store into the arena
@@ -36,6 +40,8 @@ const BIG_L: usize = (2 << 20) + (256 << 10);
 #[repr(align(64))]
 struct Arena<const N: usize>([u8; N]);
 static mut SMALL: Arena<256> = Arena([0; 256]);
+const MID_L: usize = 640;
+static mut MID: Arena<MID_L> = Arena([0; MID_L]);
 static mut BIG: Arena<BIG_L> = Arena([0; BIG_L]);
 
 // ---------------------------------------------------------------------------------------------
@@ -125,6 +131,16 @@ unsafe fn retag(base: *mut u8, lo: usize, hi: usize) {
     let mut i = lo;
     while i < hi {
         base.add(i).write_volatile(tag(i));
+        i += 1;
+    }
+}
+
+/// restore the tags of a guarded page in [lo, hi)
+#[inline(never)]
+unsafe fn retagp(page: *mut u8, lo: usize, hi: usize) {
+    let mut i = lo;
+    while i < hi {
+        page.add(i).write_volatile(tag(i));
         i += 1;
     }
 }
@@ -283,6 +299,91 @@ unsafe fn do_cmp(name: &str, f: CmpFn, base: *mut u8, n: usize, am: usize, bm: u
         i += 1;
     }
     puts("]}\n");
+    flush();
+}
+
+// ---------------------------------------------------------------------------------------------
+// guard pages (raw system calls: the probe must not depend on more of the library than it tests)
+// ---------------------------------------------------------------------------------------------
+unsafe fn sys6(nr: usize, a: usize, b: usize, c: usize, d: usize, e: usize, f: usize) -> isize {
+    let r: isize;
+    core::arch::asm!("syscall", inlateout("rax") nr => r, in("rdi") a, in("rsi") b, in("rdx") c, in("r10") d, in("r8") e, in("r9") f,
+                     lateout("rcx") _, lateout("r11") _, options(nostack));
+    r
+}
+const PAGE: usize = 4096;
+/// five pages, the 1st, 3rd and 5th unreadable: -> (page A, page B), each readable page has a PROT_NONE page on both sides
+unsafe fn guarded_pages() -> (*mut u8, *mut u8) {
+    let g = sys6(9, 0, 5 * PAGE, 3, 0x22, usize::MAX, 0); // mmap(PROT_READ|PROT_WRITE, MAP_PRIVATE|MAP_ANONYMOUS)
+    if g < 0 {
+        return (core::ptr::null_mut(), core::ptr::null_mut());
+    }
+    let g = g as usize;
+    for k in [0usize, 2, 4] {
+        if sys6(10, g + k * PAGE, PAGE, 0, 0, 0, 0) != 0 {
+            return (core::ptr::null_mut(), core::ptr::null_mut());
+        }
+    }
+    ((g + PAGE) as *mut u8, (g + 3 * PAGE) as *mut u8)
+}
+unsafe fn put_bytes(key: &str, p: *const u8, n: usize) {
+    puts(",\"");
+    puts(key);
+    puts("\":[");
+    let mut i = 0;
+    while i < n {
+        if i > 0 {
+            putb(b',');
+        }
+        puti(i64::from(p.add(i).read_volatile()));
+        i += 1;
+    }
+    puts("]");
+}
+/// one guarded copy: the source bytes are printed BEFORE the call (announcement, flushed), the destination after it
+unsafe fn guard_copy(name: &str, f: CopyFn, place: &str, n: usize, dm: i64, delta: i64, dst: *mut u8, src: *const u8) {
+    putb(b'{');
+    puts("\"f\":\"");
+    puts(name);
+    puts("\",\"G\":\"");
+    puts(place);
+    puts("\"");
+    kv(false, "n", n as i64);
+    kv(false, "dm", dm);
+    kv(false, "delta", delta);
+    put_bytes("src", src, n);
+    flush();
+    let r = f(dst, src, n);
+    kv(false, "ret", r as i64 - dst as i64);
+    put_bytes("dst", dst, n);
+    puts("}\n");
+    flush();
+}
+unsafe fn guard_cmp(name: &str, f: CmpFn, place: &str, n: usize, bm: usize, p: usize, a: *mut u8, b: *mut u8) {
+    let mut i = 0;
+    while i < n {
+        let t = tag(i * 5 + 2);
+        a.add(i).write_volatile(t);
+        b.add(i).write_volatile(if i == p { t ^ 0x80 } else { t });
+        i += 1;
+    }
+    putb(b'{');
+    puts("\"f\":\"");
+    puts(name);
+    puts("\",\"G\":\"");
+    puts(place);
+    puts("\"");
+    kv(false, "n", n as i64);
+    kv(false, "am", 0);
+    kv(false, "bm", bm as i64);
+    kv(false, "p", p as i64);
+    kv(false, "pr", 0);
+    flush();
+    let r = f(a, b, n);
+    kv(false, "ret", i64::from(r));
+    put_bytes("a", a, n);
+    put_bytes("b", b, n);
+    puts("}\n");
     flush();
 }
 
@@ -476,6 +577,90 @@ pub fn main() -> i32 {
                     do_copy("memmove", mov, sb, SMALL_L, n, d, x as usize);
                 } else if f == b"memset" {
                     do_set(set, sb, SMALL_L, n, d, x as i32);
+                }
+            }
+        } else if mode == b"mid" {
+            let mb = core::ptr::addr_of_mut!(MID).cast::<u8>();
+            fill_tags(mb, MID_L);
+            for nw in word(cmd, 1).split(|c| *c == b',') {
+                let n = num(nw) as usize;
+                if nw.is_empty() || n > 130 {
+                    continue;
+                }
+                for dm in SUB_AL {
+                    for sm in SUB_BL {
+                        for (d, s) in [(64 + dm, 352 + sm), (352 + dm, 64 + sm)] {
+                            do_copy("memcpy", cpy, mb, MID_L, n, d, s);
+                            do_copy("memmove", mov, mb, MID_L, n, d, s);
+                        }
+                    }
+                    let d = 240 + dm;
+                    for delta in [-(n as i64) + 1, -9, -8, -1, 1, 7, 8, 9, n as i64 - 1] {
+                        if delta != 0 && delta.unsigned_abs() as usize <= n + 1 {
+                            do_copy("memmove", mov, mb, MID_L, n, d, (d as i64 + delta) as usize);
+                        }
+                    }
+                }
+            }
+        } else if mode == b"guard" {
+            let (pa, pb) = guarded_pages();
+            if pa.is_null() {
+                puts("{\"f\":\"noguard\"}\n");
+            } else {
+                let mut i = 0;
+                while i < PAGE {
+                    pa.add(i).write_volatile(tag(i));
+                    pb.add(i).write_volatile(tag(i + 100));
+                    i += 1;
+                }
+                for nw in word(cmd, 1).split(|c| *c == b',') {
+                    let n = num(nw) as usize;
+                    if nw.is_empty() || n > 130 {
+                        continue;
+                    }
+                    let wide = n <= 40;
+                    for dm in 0..16usize {
+                        if !wide && !SUB_AL.contains(&dm) {
+                            continue;
+                        }
+                        let dst = sb.add(64 + dm);
+                        // source ENDS at the unreadable page / STARTS right behind one; destination far away
+                        for (place, src) in [("end", pa.add(PAGE - n)), ("start", pa)] {
+                            guard_copy("memcpy", cpy, place, n, dm as i64, 0, dst, src);
+                            guard_copy("memmove", mov, place, n, dm as i64, 0, dst, src);
+                        }
+                    }
+                    // overlapping memmove inside the guarded page: forward copy with the source ending at the guard,
+                    // backward copy with the source starting behind the guard
+                    let maxd = core::cmp::min(n, 16) as i64;
+                    let mut delta = 1;
+                    while delta <= maxd {
+                        let src = pa.add(PAGE - n);
+                        guard_copy("memmove", mov, "end", n, -1, -delta, src.sub(delta as usize), src);
+                        retagp(pa, PAGE - n - 16, PAGE);
+                        guard_copy("memmove", mov, "start", n, -1, delta, pa.add(delta as usize), pa);
+                        retagp(pa, 0, n + 16);
+                        delta += 1;
+                    }
+                    // compares: one or both operands end at / start behind an unreadable page; equal ranges (the whole
+                    // range must be read) and a difference in the last byte
+                    if wide {
+                        for (nm, f) in [("memcmp", cmpf), ("bcmp", bcmpf)] {
+                            for p in [n, n.wrapping_sub(1)] {
+                                if p > n {
+                                    continue;
+                                }
+                                for bm in [0usize, 1, 3, 7, 8, 15] {
+                                    guard_cmp(nm, f, "end_a", n, bm, p, pa.add(PAGE - n), sb.add(64 + bm));
+                                    guard_cmp(nm, f, "end_b", n, bm, p, sb.add(64 + bm), pb.add(PAGE - n));
+                                    guard_cmp(nm, f, "start_a", n, bm, p, pa, sb.add(64 + bm));
+                                }
+                                guard_cmp(nm, f, "end_ab", n, 0, p, pa.add(PAGE - n), pb.add(PAGE - n));
+                                guard_cmp(nm, f, "start_ab", n, 0, p, pa, pb);
+                            }
+                        }
+                        retagp(pa, 0, PAGE);
+                    }
                 }
             }
         } else if mode == b"steps" {
